@@ -138,6 +138,7 @@ impl rustc_driver::Callbacks for Cb {
             }
             nbodies += 1;
             mirdump::dump_fn(&cx, ldid, &mut out);
+            mirdump::dump_promoted(&cx, ldid, &mut out);
             if matches!(kind, DefKind::Fn | DefKind::AssocFn) {
                 hirdump::dump_fn(&cx, ldid, &mut out);
             }
